@@ -306,17 +306,12 @@ def copy_file(src: pathlib.Path, dst: pathlib.Path,
 
         # workaround to prevent permission error when writing to zip on network
         # https://github.com/fumitoh/modelx/issues/82
+        # Only opening the archive is retried: once a member is partly
+        # written, writing it again would leave a corrupt archive behind
         retries = 3
         for i in range(retries):
             try:
-                with _append_zip(root_dst,
-                                 **_compress_kwargs(compression, compresslevel)
-                                 ) as zip_dst:
-                    if not _archive_exists(arc_dst, zip_dst):
-                        if is_valid_archive_path(arc_dst, zip_dst):
-                            zip_dst.write(src, arc_dst)
-                        else:
-                            raise ValueError("invalid archive '%s'" % arc_dst)
+                fp = open(root_dst, "r+b")
             except PermissionError:
                 if i < retries - 1:
                     warnings.warn("writing to '%s' failed, retrying...")
@@ -325,6 +320,17 @@ def copy_file(src: pathlib.Path, dst: pathlib.Path,
                 else:
                     raise
             break
+
+        with fp:
+            with zipfile.ZipFile(
+                    fp, mode="a",
+                    **_compress_kwargs(compression, compresslevel)
+            ) as zip_dst:
+                if not _archive_exists(arc_dst, zip_dst):
+                    if is_valid_archive_path(arc_dst, zip_dst):
+                        zip_dst.write(src, arc_dst)
+                    else:
+                        raise ValueError("invalid archive '%s'" % arc_dst)
 
     elif not root_src and not root_dst:
         shutil.copyfile(str(src), str(dst))
